@@ -349,14 +349,23 @@ class Gen:
             en = r.choice(self.entries_for(w, t))
             hi = self.handle_of(w, t)
         else:
-            if not w.handles:
-                return None
-            hi = r.randrange(len(w.handles))
-            mem = [s for s in w.handles[hi].state_objs if not getattr(s, "measured", False)]
-            if len(mem) < 2:
-                return None
-            ts = r.sample(mem, 2)
-            en = "ce"
+            es = [e for e in w.envs if not e.measured and not e.fock.measured and not e.polarization.measured]
+            if es and (not w.handles or r.random() < 0.4):
+                # both members of one envelope, through the envelope (either operand order)
+                e = r.choice(es)
+                ts = [e.fock, e.polarization]
+                r.shuffle(ts)
+                en = "env"
+                hi = None
+            else:
+                if not w.handles:
+                    return None
+                hi = r.randrange(len(w.handles))
+                mem = [s for s in w.handles[hi].state_objs if not getattr(s, "measured", False)]
+                if len(mem) < 2:
+                    return None
+                ts = r.sample(mem, 2)
+                en = "ce"
         dims = []
         for t in ts:
             if isinstance(t, Fock) and t.dimensions < 0:
